@@ -11,7 +11,7 @@ def S(g, n=0, xs=()):
 
 
 def op(o, a=0):
-    return {"o": o, "a": a}
+    return {"o": o, "a": a, "v": 0}
 
 
 def term(k, s=None, catch=False, ret=0):
@@ -45,7 +45,7 @@ BASE = dict(ntasks=(1, 6), nseg=(1, 3), nleaf=(0, 3), nkinds=(1, 2), depth=1,
             p_raise=0.0, p_errleaf=0.0, p_lazyfail=0.0, p_bad=0.0, p_catch=0.0,
             p_sync=0.0, p_spawn=0.0, ctx_types=(), p_ctx=0.0, nvars=0, p_read=0.0, faulty=(),
             ncalls=1, convs=("call", "value"), p_result=0.3, containers=("Tup", "Lst", "Dct"),
-            p_dedup=0.0, p_dirty=0.0, ndfn=(1, 2), nkeys=2, p_ival=0.0, p_raiseb=0.0)
+            p_dedup=0.0, p_dirty=0.0, ndfn=(1, 2), nkeys=2, p_ival=0.0, p_raiseb=0.0, p_set=0.0)
 
 PROFILES = {
     "plain": dict(BASE),
@@ -93,6 +93,9 @@ PROFILES = {
     "basefaults": dict(BASE, p_raise=0.25, p_raiseb=0.6, p_catch=0.6, p_share=0.1, p_sync=0.1, ctx_types=("async",), p_ctx=0.2,
                        flush_modes=("ok", "itemerr")),
     "spawnsync": dict(BASE, ntasks=(3, 8), p_spawn=0.35, p_sync=0.35, p_task=0.4, p_item=0.3, p_catch=0.3, p_raise=0.08),
+    "overridedag": dict(BASE, ntasks=(3, 8), ctx_types=("override", "attr"), p_ctx=0.5, nvars=2, p_read=0.6, p_share=0.35, p_reyield=0.1,
+                        nkinds=(1, 2)),
+    "overrideset": dict(BASE, ctx_types=("override", "attr"), p_ctx=0.5, nvars=2, p_read=0.5, p_set=0.5, p_share=0.1),
     "everything": dict(BASE, ntasks=(2, 8), nkinds=(1, 3), bases=(0, 1), p_share=0.1, p_reyield=0.05,
                        flush_modes=("ok", "ok", "itemerr", "skip", "raise"), p_raise=0.08, p_errleaf=0.04, p_bad=0.03,
                        p_catch=0.35, p_sync=0.15, ctx_types=("async", "override"), p_ctx=0.35, nvars=1, p_read=0.3),
@@ -210,7 +213,7 @@ class Gen(object):
         spawned = []
         for k in range(1, nseg + 1):
             ops = []
-            nops = r.randint(0, 3) if (p["p_ctx"] or p["p_sync"] or p["p_read"] or p["p_spawn"] or p["p_dirty"] or p["p_ival"]) else 0
+            nops = r.randint(0, 4) if (p["p_ctx"] or p["p_sync"] or p["p_read"] or p["p_spawn"] or p["p_dirty"] or p["p_ival"]) else 0
             for _ in range(nops):
                 x = r.random()
                 if p["ctx_types"] and x < p["p_ctx"]:
@@ -243,6 +246,12 @@ class Gen(object):
                     if u is not None:
                         self.sync_targets.add(u)
                         ops.append(op("sync", u))
+                elif p["p_set"] and open_ctx and r.random() < p["p_set"] and \
+                        self.ctxs[open_ctx[-1] - 1]["type"] in ("override", "attr"):
+                    c = self.ctxs[open_ctx[-1] - 1]
+                    o_ = op("set", c["var"] if c["type"] == "override" else 100 + c["var"])
+                    o_["v"] = 70 + r.randint(1, 3)
+                    ops.append(o_)
                 elif p["nvars"] and x < p["p_ctx"] + p["p_sync"] + p["p_read"]:
                     v = r.randint(1, p["nvars"])
                     ops.append(op("read", v if r.random() < 0.5 or "attr" not in p["ctx_types"] else 100 + v))
